@@ -289,8 +289,21 @@ pub struct RefRuntimeTick {
     pub post: Result<RefState, String>,
 }
 
-pub fn ref_runtime_tick(pre: &RefState, w: u8, items: &[([u8; 32], Prog)]) -> RefRuntimeTick {
+pub fn ref_runtime_tick(pre_state: &RefState, w: u8, items: &[([u8; 32], u8, Prog)]) -> RefRuntimeTick {
     let warp = ids::warp(w);
+    // Ingress materialisation happens before any rule runs: event node, kind node and the
+    // event -> kind edge exist in the state the programs see (types are irrelevant to the model and the
+    // comparison is restricted to the harness universe afterwards).
+    let mut pre = pre_state.clone();
+    if let Some(i) = pre.inst.get_mut(&warp.0) {
+        for (id, kind, _) in items {
+            let kn = super::prog::kind_node_id(*kind);
+            i.nodes.entry(*id).or_insert([0xE1; 32]);
+            i.nodes.entry(kn.0).or_insert([0xE2; 32]);
+            i.edges.insert(super::prog::kind_edge_id(&NodeId(*id), *kind).0, (*id, kn.0, [0xE3; 32]));
+        }
+    }
+    let pre = &pre;
     let inst = pre.inst.get(&warp.0);
     struct It {
         sh: [u8; 32],
@@ -300,7 +313,7 @@ pub fn ref_runtime_tick(pre: &RefState, w: u8, items: &[([u8; 32], Prog)]) -> Re
         declared: Vec<Access>,
     }
     let mut set: Vec<It> = Vec::new();
-    for (id, prog) in items {
+    for (id, _kind, prog) in items {
         if prog.rule >= N_RULES || set.iter().any(|x| x.id == *id) {
             continue;
         }
